@@ -50,6 +50,15 @@ class SV:
     #                              ('lambda', node, env, module) ('ext', dotted) ('builtin', name) ('extbound', SV, name)
 
 
+class _EmptyModel:
+    """stand-in passed to witness functions of literally-false obligations (they carry their own data)"""
+    def eval(self, e, model_completion=True):
+        return e
+
+    def __getitem__(self, k):
+        return None
+
+
 @dataclass
 class Obligation:
     name: str
@@ -371,6 +380,16 @@ class State:
         status, backend, wit, mtxt = None, "z3-5.1(api,incremental)", None, ""
         if sb is True:
             status, backend = "discharged", "simplifier"
+        elif sb is False and self.reachable():
+            # the obligation itself is syntactically false (e.g. a ghost/event-order obligation decided by the handler) and the path is
+            # feasible as far as the quantifier-free part of the path condition goes: refuted without consulting the heap axioms
+            status, backend = "failed", "simplifier (obligation is literally false on a feasible path)"
+            model = None
+            if witness_fn is not None:
+                try:
+                    wit = witness_fn(z3.Solver().model() if False else _EmptyModel())
+                except Exception:
+                    wit = None
         else:
             self._last_backend = None
             repeat = name in State.hard_names
